@@ -33,11 +33,17 @@ Section FloodP.
   Lemma cmem_false x l : cmem x l = false <-> ~ In x l.
   Proof. rewrite <- cmem_In. destruct (cmem x l); split; congruence. Qed.
 
-  Lemma cadd_In x y l : In y (cadd x l) <-> y = x \/ In y l.
+  Lemma cadd_In x y l : In y (cadd x l) <-> x = y \/ In y l.
   Proof.
     unfold FloodM.cadd. destruct (cmem x l) eqn:E.
-    - apply cmem_In in E. split; [now right|]. intros [->|H]; assumption.
-    - rewrite in_app_iff. cbn. intuition.
+    - apply cmem_In in E. split; [now right|]. intros [<-|H]; assumption.
+    - rewrite in_app_iff. cbn. tauto.
+  Qed.
+
+  Lemma cell_eq_dec (a b : cell) : a = b \/ a <> b.
+  Proof.
+    destruct (ceqb a b) eqn:X; [left; now apply ceqb_spec|].
+    right. intros ->. rewrite (proj2 (ceqb_spec b b) eq_refl) in X. discriminate.
   Qed.
 
   Lemma cadd_length x l : length (cadd x l) <= S (length l).
@@ -46,14 +52,14 @@ Section FloodP.
   Lemma cadd_NoDup x l : NoDup l -> NoDup (cadd x l).
   Proof.
     intro N. unfold FloodM.cadd. destruct (cmem x l) eqn:E; [exact N|].
-    apply cmem_false in E. apply NoDup_app_remove_l with (l := []). cbn.
+    apply cmem_false in E.
     clear -N E. induction l as [|a l IH]; cbn; [constructor; [intros []|constructor]|].
     inversion N; subst. constructor.
     - rewrite in_app_iff. cbn. intros [H|[H|[]]]; [contradiction|]. apply E. now left.
     - apply IH; [assumption|]. intro H. apply E. now right.
   Qed.
 
-  Lemma In_dec_cell x l : In x l \/ ~ In x l.
+  Lemma In_dec_cell (x : cell) (l : list cell) : In x l \/ ~ In x l.
   Proof. destruct (cmem x l) eqn:E; [left; now apply cmem_In|right; now apply cmem_false]. Qed.
 
   (* ---------------------------------------------------------------- one scan of the neighbours *)
@@ -64,40 +70,224 @@ Section FloodP.
     (forall x, In x q' <-> In x q \/ (In x ns /\ ~ In x c /\ touch x = true)).
   Proof.
     induction ns as [|n ns IH]; intros v c q v' c' q' H; cbn in H.
-    - injection H as <- <- <-. repeat split; intros; cbn; tauto.
-    - destruct (cmem n c) eqn:E.
-      + apply cmem_In in E. destruct (IH _ _ _ _ _ _ H) as (A & B & C).
-        repeat split; intros.
-        * rewrite A in H0. cbn. tauto.
-        * rewrite A. cbn in H0. destruct H0 as [?|([<-|?] & ? & ?)]; tauto.
-        * rewrite B in H0. cbn. tauto.
-        * rewrite B. cbn in H0. destruct H0 as [?|[<-|?]]; tauto.
-        * rewrite C in H0. cbn. tauto.
-        * rewrite C. cbn in H0. destruct H0 as [?|([<-|?] & ? & ?)]; tauto.
-      + apply cmem_false in E. destruct (touch n) eqn:T.
-        * destruct (IH _ _ _ _ _ _ H) as (A & B & C).
-          repeat split; intros.
-          -- rewrite A, cadd_In in H0. cbn in *. destruct H0 as [[->|?]|(? & ? & ?)]; tauto.
-          -- rewrite A, cadd_In. cbn in *. destruct H0 as [?|([<-|?] & ? & ?)]; try tauto.
-             destruct (ceqb x n) eqn:X; [apply ceqb_spec in X; tauto|].
-             right. repeat split; try tauto. intros [<-|?]; [|tauto].
-             rewrite (proj2 (ceqb_spec n n) eq_refl) in X. discriminate.
-          -- rewrite B in H0. cbn in *. tauto.
-          -- rewrite B. cbn in *. destruct H0 as [?|[<-|?]]; tauto.
-          -- rewrite C, cadd_In in H0. cbn in *. destruct H0 as [[->|?]|(? & ? & ?)]; tauto.
-          -- rewrite C, cadd_In. cbn in *. destruct H0 as [?|([<-|?] & ? & ?)]; try tauto.
-             destruct (ceqb x n) eqn:X; [apply ceqb_spec in X; tauto|].
-             right. repeat split; try tauto. intros [<-|?]; [|tauto].
-             rewrite (proj2 (ceqb_spec n n) eq_refl) in X. discriminate.
-        * destruct (IH _ _ _ _ _ _ H) as (A & B & C).
-          repeat split; intros.
-          -- rewrite A in H0. cbn in *. tauto.
-          -- rewrite A. cbn in *. destruct H0 as [?|([<-|?] & ? & ?)]; try tauto; try congruence.
-             right. repeat split; try tauto. intros [<-|?]; [congruence|tauto].
-          -- rewrite B in H0. cbn in *. tauto.
-          -- rewrite B. cbn in *. destruct H0 as [?|[<-|?]]; tauto.
-          -- rewrite C in H0. cbn in *. tauto.
-          -- rewrite C. cbn in *. destruct H0 as [?|([<-|?] & ? & ?)]; try tauto; try congruence.
-             right. repeat split; try tauto. intros [<-|?]; [congruence|tauto].
+    - injection H as <- <- <-. (split; [|split]); intro x; cbn [In]; tauto.
+    - destruct (cmem n c) eqn:E; [apply cmem_In in E|apply cmem_false in E; destruct (touch n) eqn:T];
+        destruct (IH _ _ _ _ _ _ H) as (A & B & C); clear IH H;
+        (split; [|split]); intro x; rewrite ?A, ?B, ?C, ?cadd_In; cbn [In];
+        pose proof (cell_eq_dec n x) as D;
+        intuition (subst; try congruence; try tauto).
+  Qed.
+
+  (* ---------------------------------------------------------------- the loop *)
+  (* cells reachable from the start cell through touching cells, along [nbr] *)
+  Inductive reach (start : cell) : cell -> Prop :=
+  | reach_start : reach start start
+  | reach_step c n : reach start c -> In n (nbr c) -> touch n = true -> reach start n.
+
+  Definition inv (start : cell) (st : fstate cell) : Prop :=
+    let '(v, c, q) := st in
+    (forall x, In x v -> reach start x) /\
+    (forall x, In x q -> In x v) /\
+    (forall x, In x v -> In x q \/ forall n, In n (nbr x) -> In n c) /\
+    (forall n, In n c -> touch n = true -> In n v) /\
+    In start v /\ NoDup v.
+
+  Lemma inv_init start : inv start ([start], [], [start]).
+  Proof.
+    cbn. repeat split.
+    - intros x [<-|[]]. constructor.
+    - tauto.
+    - intros x [<-|[]]. left. now left.
+    - intros n [].
+    - now left.
+    - constructor; [intros []|constructor].
+  Qed.
+
+  Lemma scan_NoDup ns : forall v c q v' c' q',
+    scan ns (v, c, q) = (v', c', q') -> NoDup v -> NoDup v'.
+  Proof.
+    induction ns as [|n ns IH]; intros v c q v' c' q' H N; cbn in H.
+    - now injection H as <- <- <-.
+    - destruct (cmem n c); [eapply IH; eauto|]. destruct (touch n); [|eapply IH; eauto].
+      eapply IH; [exact H|]. now apply cadd_NoDup.
+  Qed.
+
+  Lemma inv_step start v c q gh q0 v' c' q' :
+    inv start (v, c, q) -> pop q = Some (gh, q0) ->
+    scan (nbr gh) (v, c, q0) = (v', c', q') -> inv start (v', c', q').
+  Proof.
+    intros (J1 & J2 & J3 & J4 & J5 & J6) P S.
+    destruct (pop_some _ _ _ P) as (P1 & P2 & P3 & _).
+    destruct (scan_spec _ _ _ _ _ _ _ S) as (A & B & C).
+    assert (Rg : reach start gh) by (apply J1, J2, P1).
+    cbn. repeat split.
+    - intros x Hx. apply A in Hx. destruct Hx as [Hx|(Hn & _ & Ht)]; [now apply J1|].
+      eapply reach_step; eauto.
+    - intros x Hx. apply C in Hx. apply A. destruct Hx as [Hx|Hx]; [left; apply J2, P3, Hx|now right].
+    - intros x Hx. apply A in Hx. destruct Hx as [Hx|Hx].
+      + destruct (J3 x Hx) as [Hq|Hn].
+        * destruct (P2 x Hq) as [->|Hq0].
+          -- right. intros n Hn. apply B. now right.
+          -- left. apply C. now left.
+        * right. intros n Hn'. apply B. left. now apply Hn.
+      + left. apply C. now right.
+    - intros n Hn Ht. apply A. apply B in Hn. destruct (In_dec_cell n c) as [Hc|Hc].
+      + left. now apply J4.
+      + destruct Hn as [Hn|Hn]; [contradiction|]. right. tauto.
+    - apply A. now left.
+    - eapply scan_NoDup; eauto.
+  Qed.
+
+  Lemma flood_loop_inv start fuel : forall st r,
+    inv start st -> flood_loop fuel st = Some r ->
+    (forall x, In x r <-> reach start x) /\ NoDup r.
+  Proof.
+    induction fuel as [|f IH]; intros [[v c] q] r I H; cbn in H; [discriminate|].
+    destruct (pop q) as [[gh q0]|] eqn:P.
+    - destruct (scan (nbr gh) (v, c, q0)) as [[v' c'] q'] eqn:S.
+      eapply IH; [|exact H]. eapply inv_step; eauto.
+    - injection H as <-. apply pop_none in P. subst q.
+      destruct I as (J1 & J2 & J3 & J4 & J5 & J6). split; [|exact J6].
+      intro x. split; [apply J1|]. intro R. induction R as [|c0 n R IHR Hn Ht]; [exact J5|].
+      destruct (J3 c0 IHR) as [[]|Hc]. apply J4; [now apply Hc|exact Ht].
+  Qed.
+
+  (* the result is EXACTLY the set of cells reachable from the start through touching cells,
+     whatever order the queue is popped in; it has no repeated cell *)
+  Theorem flood_result start fuel r :
+    flood start fuel = Some r -> (forall x, In x r <-> reach start x) /\ NoDup r.
+  Proof. apply flood_loop_inv, inv_init. Qed.
+
+  Theorem flood_sound start fuel r c :
+    flood start fuel = Some r -> In c r -> c = start \/ touch c = true.
+  Proof.
+    intros H Hc. apply (flood_result _ _ _ H) in Hc. destruct Hc; [now left|now right].
+  Qed.
+
+  (* ---------------------------------------------------------------- termination / fuel *)
+  Definition remaining (U c : list cell) : nat := length (filter (fun u => negb (cmem u c)) U).
+
+  Lemma filter_length_le {A} (f g : A -> bool) l :
+    (forall x, g x = true -> f x = true) -> length (filter g l) <= length (filter f l).
+  Proof.
+    intro H. induction l as [|a l IH]; cbn; [lia|].
+    destruct (g a) eqn:G; [rewrite (H _ G); cbn; lia|]. destruct (f a); cbn; lia.
+  Qed.
+
+  Lemma filter_length_lt {A} (f g : A -> bool) l n :
+    (forall x, g x = true -> f x = true) -> In n l -> f n = true -> g n = false ->
+    length (filter g l) < length (filter f l).
+  Proof.
+    intros H Hn Fn Gn. induction l as [|a l IH]; [destruct Hn|]. cbn.
+    destruct Hn as [->|Hn].
+    - rewrite Fn, Gn. cbn. pose proof (filter_length_le f g l H). lia.
+    - specialize (IH Hn). destruct (g a) eqn:G; [rewrite (H _ G); cbn; lia|]. destruct (f a); cbn; lia.
+  Qed.
+
+  Lemma remaining_cons U c n : In n U -> ~ In n c -> remaining U (n :: c) < remaining U c.
+  Proof.
+    intros Hn Hc. unfold remaining. apply filter_length_lt with (n := n); auto.
+    - intros x. unfold FloodM.cmem. cbn. destruct (ceqb x n); cbn; [discriminate|tauto].
+    - apply cmem_false in Hc. now rewrite Hc.
+    - unfold FloodM.cmem. cbn. now rewrite (proj2 (ceqb_spec n n) eq_refl).
+  Qed.
+
+  Lemma scan_measure U ns : forall v c q v' c' q',
+    (forall n, In n ns -> In n U) ->
+    scan ns (v, c, q) = (v', c', q') ->
+    remaining U c' + length q' <= remaining U c + length q.
+  Proof.
+    induction ns as [|n ns IH]; intros v c q v' c' q' HU H; cbn in H.
+    - injection H as <- <- <-. lia.
+    - assert (HU' : forall m, In m ns -> In m U) by (intros; apply HU; now right).
+      destruct (cmem n c) eqn:E; [eapply IH; eauto|]. apply cmem_false in E.
+      pose proof (remaining_cons U c n (HU n (or_introl eq_refl)) E) as R.
+      destruct (touch n).
+      + specialize (IH _ _ _ _ _ _ HU' H). pose proof (cadd_length n q). lia.
+      + specialize (IH _ _ _ _ _ _ HU' H). lia.
+  Qed.
+
+  Lemma flood_loop_fuel U :
+    (forall c, In c U -> forall n, In n (nbr c) -> In n U) ->
+    forall fuel v c q,
+      (forall x, In x q -> In x U) ->
+      remaining U c + length q < fuel ->
+      exists r, flood_loop fuel (v, c, q) = Some r.
+  Proof.
+    intros HU. induction fuel as [|f IH]; intros v c q Hq M; [lia|]. cbn.
+    destruct (pop q) as [[gh q0]|] eqn:P; [|eauto].
+    destruct (pop_some _ _ _ P) as (P1 & P2 & P3 & P4).
+    destruct (scan (nbr gh) (v, c, q0)) as [[v' c'] q'] eqn:S.
+    assert (Hn : forall n, In n (nbr gh) -> In n U) by (apply HU, Hq, P1).
+    pose proof (scan_measure U _ _ _ _ _ _ _ Hn S) as SM.
+    apply IH; [|lia].
+    intros x Hx. destruct (scan_spec _ _ _ _ _ _ _ S) as (_ & _ & C). apply C in Hx.
+    destruct Hx as [Hx|(Hx & _)]; [apply Hq, P3, Hx|now apply Hn].
+  Qed.
+
+  (* with fuel above the size of any finite universe of cells that contains the start cell and is
+     closed under [nbr], the loop terminates and returns every reachable cell *)
+  Theorem flood_complete U start fuel :
+    In start U -> (forall c, In c U -> forall n, In n (nbr c) -> In n U) ->
+    length U + 2 <= fuel ->
+    exists r, flood start fuel = Some r /\ forall c, reach start c -> In c r.
+  Proof.
+    intros HS HU F.
+    destruct (flood_loop_fuel U HU fuel [start] [] [start]) as [r Hr].
+    - intros x [<-|[]]. exact HS.
+    - unfold remaining. cbn [length]. pose proof (filter_length_le (fun _ => true) (fun u => negb (cmem u [])) U (fun _ _ => eq_refl)) as L.
+      assert (E : length (filter (fun _ : cell => true) U) = length U).
+      { clear. induction U as [|a l IH]; cbn; [reflexivity|now rewrite IH]. }
+      lia.
+    - exists r. split; [exact Hr|]. intros c Hc. now apply (flood_result _ _ _ Hr).
+  Qed.
+
+  (* PARTIAL: "exactly the cells the shape touches" holds under the hypothesis that the touched
+     cells are connected to the start cell along [nbr] (for a connected planar shape and the
+     8-neighbourhood this is a geometric fact that is NOT proved here) and that the start cell
+     is itself touched (it is added untested) *)
+  Theorem hash_exact_partial start fuel r :
+    (forall c, touch c = true -> reach start c) -> touch start = true ->
+    flood start fuel = Some r -> forall c, In c r <-> touch c = true.
+  Proof.
+    intros HC HS H c. rewrite (proj1 (flood_result _ _ _ H) c). split; [|apply HC].
+    intros []; assumption.
+  Qed.
+
+  (* ---------------------------------------------------------------- union of members *)
+  Notation cunion := (cunion cell ceqb).
+  Notation hash_multi := (hash_multi cell ceqb).
+
+  Lemma cunion_In a b x : In x (cunion a b) <-> In x a \/ In x b.
+  Proof.
+    unfold FloodM.cunion. revert a. induction b as [|y b IH]; intro a; cbn; [tauto|].
+    rewrite IH, cadd_In. tauto.
+  Qed.
+
+  Lemma cunion_NoDup a b : NoDup a -> NoDup (cunion a b).
+  Proof.
+    unfold FloodM.cunion. revert a. induction b as [|y b IH]; intros a N; cbn; [exact N|].
+    apply IH. now apply cadd_NoDup.
+  Qed.
+
+  Theorem hash_multi_union hs x :
+    In x (hash_multi hs) <-> exists h, In h hs /\ In x h.
+  Proof.
+    unfold FloodM.hash_multi.
+    assert (G : forall acc, In x (fold_left cunion hs acc) <-> In x acc \/ exists h, In h hs /\ In x h).
+    { induction hs as [|h hs IH]; intro acc; cbn.
+      - split; [tauto|]. intros [H|(h & [] & _)]. exact H.
+      - rewrite IH, cunion_In. split.
+        + intros [[H|H]|(h' & H1 & H2)]; eauto.
+        + intros [H|(h' & [<-|H1] & H2)]; eauto. }
+    rewrite G. cbn. split; [intros [[]|H]; exact H|now right].
+  Qed.
+
+  Theorem hash_multi_NoDup hs : NoDup (hash_multi hs).
+  Proof.
+    unfold FloodM.hash_multi.
+    assert (G : forall acc, NoDup acc -> NoDup (fold_left cunion hs acc)).
+    { induction hs as [|h hs IH]; intros acc N; cbn; [exact N|]. apply IH. now apply cunion_NoDup. }
+    apply G. constructor.
   Qed.
 End FloodP.
